@@ -30,7 +30,7 @@ theorem chain_counts (L W C : Nat) (x0 : Entry) (evs : List Event) :
   intro s
   have hs : BInv s := binv_foldl (binv_init L W C x0) evs
   have hlen := hs.len
-  have hne := hs.ne0
+  have hne := hs.bnd
   have h1 : s.tried = -1 → s.chain = [] := by
     intro h; rw [h] at hlen
     exact List.eq_nil_of_length_eq_zero (by omega)
@@ -60,42 +60,62 @@ theorem step_records (s : State) (ev : Event) (hl : learning s = false) (ht : 1 
   cases ev with
   | accept u e =>
     obtain ⟨a, b, c, d, f⟩ := record_accept_chain u e hl
-    rw [step_of_chain_tried_ne_zero a (by rw [c]; omega)]
+    rw [step_of_chain_started a (by omega)]
     exact ⟨c, b, d, f⟩
   | reject n =>
     obtain ⟨a, b, c, d, f⟩ := record_reject_chain n hl
-    rw [step_of_chain_tried_ne_zero a (by rw [c]; omega)]
+    rw [step_of_chain_started a (by omega)]
     exact ⟨c, b, d, f⟩
 
-/-- the first iteration after learning records its outcome and then holds the resulting state one
-    extra time: the chain starts with that state twice, `tried` is the number tried, and the
-    extra entry counts as accepted -/
+/-- the first iteration after learning records its outcome (one entry per tried proposal) and
+    then holds the state it reached one extra time; `tried` is the number of proposals tried,
+    whether one or several, and the extra entry counts as accepted -/
 theorem first_chain_sample (s : State) (ev : Event) (hl : learning s = false) (ht : s.tried = -1)
-    (hc : s.chain = []) (hsingle : Event.nTried ev = 1) :
+    (hc : s.chain = []) :
     let s' := step s ev
-    s'.tried = 1 ∧ s'.chain = [s'.cur, s'.cur] ∧
+    s'.tried = Event.nTried ev ∧
+    s'.chain = (match ev with
+                | .accept u e => List.replicate u s.cur ++ [e, e]
+                | .reject n => List.replicate (max n 1 + 1) s.cur) ∧
     s'.accepted = s.accepted + (match ev with | .accept _ _ => 2 | .reject _ => 1) := by
   intro s'
   cases ev with
   | accept u e =>
-    have hu : u = 0 := by simpa [Event.nTried] using hsingle
-    subst hu
-    obtain ⟨a, b, c, d, f⟩ := record_accept_chain 0 e hl
-    obtain ⟨a', b', c', d'⟩ := step_of_chain_tried_zero a (by rw [c, ht]; rfl)
-    refine ⟨b', ?_, ?_⟩
-    · show (step s _).chain = [(step s _).cur, (step s _).cur]
-      rw [a', d', b, f, hc]; rfl
+    obtain ⟨a, b, c, d, f⟩ := record_accept_chain u e hl
+    obtain ⟨-, a', b', c', -⟩ := step_of_chain_first a (by omega) (by rw [c, ht]; omega)
+    refine ⟨?_, ?_, ?_⟩
+    · show (step s _).tried = ((u + 1 : Nat) : Int)
+      rw [b', c, ht]; omega
+    · show (step s _).chain = _
+      rw [a', b, f, hc]; simp
     · show (step s _).accepted = _
       rw [c', d]; simp only; omega
   | reject n =>
-    have hn : max n 1 = 1 := hsingle
     obtain ⟨a, b, c, d, f⟩ := record_reject_chain n hl
-    obtain ⟨a', b', c', d'⟩ := step_of_chain_tried_zero a (by rw [c, ht, hn]; rfl)
-    refine ⟨b', ?_, ?_⟩
-    · show (step s _).chain = [(step s _).cur, (step s _).cur]
-      rw [a', d', b, f, hc, hn]; rfl
+    obtain ⟨-, a', b', c', -⟩ := step_of_chain_first a (by omega) (by rw [c, ht]; omega)
+    refine ⟨?_, ?_, ?_⟩
+    · show (step s _).tried = ((max n 1 : Nat) : Int)
+      rw [b', c, ht]; omega
+    · show (step s _).chain = _
+      rw [a', b, f, hc]; simp [List.replicate_succ']
     · show (step s _).accepted = _
       rw [c', d]
+
+/-- once the chain has started, `tried` is the total number of proposals tried by the iterations
+    processed since the learning period ended (`s`: any state at the end of learning) -/
+theorem tried_counts_proposals (s : State) (ev : Event) (evs : List Event)
+    (hl : learning s = false) (ht : s.tried = -1) (hc : s.chain = []) :
+    (reach s (ev :: evs)).tried = ((((ev :: evs).map Event.nTried).sum : Nat) : Int) := by
+  have hmap : ∀ l : List Event, l.map Event.nTried = l.map tries :=
+    fun l => List.map_congr_left fun e _ => by cases e <;> rfl
+  have h1 := (first_chain_sample s ev hl ht hc).1
+  have hpos : 1 ≤ Event.nTried ev := by
+    have := tries_pos ev
+    cases ev <;> exact this
+  show (evs.foldl step (step s ev)).tried = _
+  rw [foldl_tried_started evs (step s ev) (step_not_learning ev hl) (by rw [h1]; omega), h1,
+    List.map_cons, List.sum_cons, hmap evs]
+  omega
 
 /-- every recorded entry is the start state or an accepted proposal, with the log-likelihood that
     came with it -/
@@ -131,10 +151,43 @@ theorem single_try_final_count (L W C : Nat) (hC : 1 ≤ C) (x0 : Entry) (evs : 
     (hs : ∀ ev ∈ evs, Event.nTried ev = 1)
     (hf : finished (run (init L W C x0) evs) = true) :
     (run (init L W C x0) evs).tried = C ∧ (run (init L W C x0) evs).chain.length = C + 1 := by
-  refine run_single C hC evs (init L W C x0) (binv_init L W C x0) rfl ?_ ?_ hf
-  · show (-1 : Int) ≤ C; omega
-  · intro ev he
-    have := hs ev he
-    cases ev <;> exact this
+  have h := run_multi C 1 evs (init L W C x0) (binv_init L W C x0) rfl
+    (by show (-1 : Int) < _; omega)
+    (fun ev he => by have := hs ev he; cases ev <;> exact Nat.le_of_eq this) hf
+  omega
+
+/-- a finished run has tried at least `chain length` proposals and overshoots by less than the
+    largest number of proposals tried in one iteration; the chain holds one entry per tried
+    proposal plus the extra hold.
+    The chain length must be at least 1 (as in `single_try_final_count`): with `C = 0` the first
+    chain iteration still runs and leaves `tried = nTried ev`, e.g. `L = 0`, `C = 0`, `m = 1`,
+    `evs = [reject 1]` gives `tried = 1 = C + m`.  `multi_try_final_count_any` covers `C = 0`. -/
+theorem multi_try_final_count (L W C m : Nat) (hC : 1 ≤ C) (x0 : Entry) (evs : List Event)
+    (hm : ∀ ev ∈ evs, Event.nTried ev ≤ m)
+    (hf : finished (run (init L W C x0) evs) = true) :
+    (C : Int) ≤ (run (init L W C x0) evs).tried ∧ (run (init L W C x0) evs).tried < C + m ∧
+    ((run (init L W C x0) evs).chain.length : Int) = (run (init L W C x0) evs).tried + 1 := by
+  have h := run_multi C m evs (init L W C x0) (binv_init L W C x0) rfl
+    (by show (-1 : Int) < _; omega)
+    (fun ev he => by have := hm ev he; cases ev <;> exact this) hf
+  omega
+
+/-- the same for every chain length, including 0 (where the bound is `1 + m`) -/
+theorem multi_try_final_count_any (L W C m : Nat) (x0 : Entry) (evs : List Event)
+    (hm : ∀ ev ∈ evs, Event.nTried ev ≤ m)
+    (hf : finished (run (init L W C x0) evs) = true) :
+    (C : Int) ≤ (run (init L W C x0) evs).tried ∧
+    (run (init L W C x0) evs).tried < max C 1 + m ∧
+    ((run (init L W C x0) evs).chain.length : Int) = (run (init L W C x0) evs).tried + 1 := by
+  have h := run_multi C m evs (init L W C x0) (binv_init L W C x0) rfl
+    (by show (-1 : Int) < _; omega)
+    (fun ev he => by have := hm ev he; cases ev <;> exact this) hf
+  omega
+
+/-- the hypothesis `1 ≤ C` of `multi_try_final_count` cannot be dropped -/
+theorem multi_try_final_count_zero_length :
+    finished (run (init 0 0 0 ⟨0, 0, false⟩) [.reject 1]) = true ∧
+    (run (init 0 0 0 ⟨0, 0, false⟩) [.reject 1]).tried = 1 := by
+  decide
 
 end MTfitVerif.C07
